@@ -311,4 +311,60 @@ theorem end_cycle_shape (w : Whole) (h : w.cycle.stopped = false) :
         obtain ⟨r, hr1, rfl⟩ := ppuTick_shape _ _ hp
         exact ⟨r, o, hr1, rfl⟩
 
+/-! ### the APU on the board -/
+
+theorem board_read_apu (b : Board) (a : Nat) : (b.read a).2.apu = b.apu := by
+  unfold Board.read Board.read?
+  cases apuAddr? (rH a) a with
+  | some ad => simp only []; cases b.apu.read ad <;> rfl
+  | none => simp only []; cases readVal (rH a) b.m a <;> rfl
+
+theorem board_corrupt_apu (b : Board) : b.corrupt.apu = b.apu := by
+  unfold Board.corrupt
+  split
+  · rfl
+  · cases Oam.corruptStep b.m.oam <;> rfl
+
+/-- **which bus writes reach the APU**: the sound registers and wave RAM (FF10–FF14, FF16–FF1E, FF20–FF26,
+    FF30–FF3F), each under its own address -/
+theorem board_write_apu (b : Board) (a v : Nat) (ha : a < 65536) :
+    (b.write a v).apu = if soundAddr a then b.apu.write a v else b.apu := by
+  unfold Board.write Board.write?
+  rw [(whole_apu_addresses a ha).2]
+  cases soundAddr a
+  · simp only [Bool.false_eq_true, if_false]
+    cases writeH (wH a) b.m a v <;> rfl
+  · rfl
+
+private theorem ppuStep_apu (b : Board) : b.ppuStep.apu = b.apu := by
+  rw [whole_step_ppu]
+  cases Render.tick (sceneOf b.m) (syncPix b.m.ppu b.pix) with
+  | none => rfl
+  | some p => cases ppuTick b.m <;> rfl
+
+private theorem dmaStep_apu (b : Board) : b.dmaStep.apu = b.apu := by
+  rw [whole_step_dma]
+  cases endMachineCycle Serial.genReadArms b.m <;> rfl
+
+/-- **the end of a machine cycle, on the APU**: one `audio.EndMachineCycle` -/
+theorem end_cycle_apu (w : Whole) (h : w.cycle.stopped = false) :
+    w.cycle.b.apu = (afterCpu w).2.apu.endMachineCycle := by
+  obtain ⟨hs, hc, hok⟩ := running_before w h
+  rw [whole_cycle_steps w hs hc hok]
+  show (afterCpu w).2.ppuStep.dmaStep.apuStep.timerStep.apu = _
+  have e : (afterCpu w).2.ppuStep.dmaStep.apuStep.timerStep.apu = (afterCpu w).2.ppuStep.dmaStep.apuStep.apu := rfl
+  rw [e, whole_step_apu]
+  show (afterCpu w).2.ppuStep.dmaStep.apu.endMachineCycle = _
+  rw [dmaStep_apu, ppuStep_apu]
+
+/-- a fold that ignores the elements a partial map drops is the fold over the mapped list -/
+theorem fold_filterMap {α β X : Type} (g : α → Option β) (f : X → α → X) (s : X → β → X)
+    (h : ∀ x a, f x a = match g a with | some b => s x b | none => x) (wr : List α) (x : X) :
+    wr.foldl f x = (wr.filterMap g).foldl s x := by
+  induction wr generalizing x with
+  | nil => rfl
+  | cons a wr ih =>
+    rw [List.foldl_cons, ih, List.filterMap_cons, h]
+    cases g a <;> rfl
+
 end Tetro.BoardTrace
